@@ -117,8 +117,40 @@ fn corpus() -> &'static Vec<String> {
     })
 }
 
+/// Character alphabet for the character-level generator: every non-alphanumeric character
+/// that occurs in numbat's tokenizer and parser sources (operators in all spellings, quotes,
+/// superscripts, …), the complete Unicode superscript/subscript block and its Latin-1
+/// members, and a few letters and digits to attach them to.
+fn alphabet() -> &'static Vec<char> {
+    static A: OnceLock<Vec<char>> = OnceLock::new();
+    A.get_or_init(|| {
+        let mut set = std::collections::BTreeSet::new();
+        for f in ["/repo/numbat/src/tokenizer.rs", "/repo/numbat/src/parser.rs"] {
+            if let Ok(text) = std::fs::read_to_string(f) {
+                for ch in text.chars() {
+                    if !ch.is_ascii_alphanumeric() && !ch.is_control() {
+                        set.insert(ch);
+                    }
+                }
+            }
+        }
+        for cp in (0x2070u32..=0x209F).chain([0xB2, 0xB3, 0xB9, 0x2212, 0x22C5, 0xB7, 0xD7, 0xF7, 0x3C0, 0xB5, 0x3BC, 0x2126, 0xB0, 0x2032, 0x2033]) {
+            if let Some(ch) = char::from_u32(cp) {
+                set.insert(ch);
+            }
+        }
+        for ch in "mskx219e_. \n".chars() {
+            set.insert(ch);
+        }
+        set.into_iter().collect()
+    })
+}
+
+const CHAR_PREFIXES: &[&str] = &["", "m", "2 m", "2", "x = 3 m", "let q = s", "dimension Q = Length", "unit u: Length", "fn f(x: Length", "\"a", "1e", "2^", "m^", "km/s"];
+
 #[derive(Clone, Debug, Serialize, Deserialize)]
 enum G {
+    Chars { prefix: u16, chars: Vec<u16> },
     Soup { tokens: Vec<u16>, glue: u32 },
     Mutate { start: u16, len: u8, ops: Vec<(u8, u16, u16)> },
     Extreme { template: u16, a: u16, b: u16 },
@@ -129,6 +161,7 @@ enum G {
 
 fn g_strategy() -> impl Strategy<Value = G> {
     prop_oneof![
+        4 => (idx(), proptest::collection::vec(idx(), 1..5)).prop_map(|(prefix, chars)| G::Chars { prefix, chars }),
         5 => (proptest::collection::vec(idx(), 1..28), any::<u32>()).prop_map(|(tokens, glue)| G::Soup { tokens, glue }),
         5 => (idx(), 1u8..6, proptest::collection::vec((0u8..6, idx(), idx()), 1..4)).prop_map(|(start, len, ops)| G::Mutate { start, len, ops }),
         4 => (idx(), idx(), idx()).prop_map(|(template, a, b)| G::Extreme { template, a, b }),
@@ -189,6 +222,14 @@ fn mutate(text: &str, ops: &[(u8, u16, u16)]) -> String {
 
 fn build(g: &G) -> (String, &'static str) {
     match g {
+        G::Chars { prefix, chars } => {
+            let a = alphabet();
+            let mut s = CHAR_PREFIXES[pick_idx(*prefix, CHAR_PREFIXES.len())].to_string();
+            for c in chars {
+                s.push(a[pick_idx(*c, a.len())]);
+            }
+            (s, "characters")
+        }
         G::Soup { tokens, glue } => {
             let mut s = String::new();
             for (i, t) in tokens.iter().enumerate() {
@@ -330,13 +371,51 @@ fn run(cfg: &Cfg) -> Report {
         |c: &(G, u8)| json!({"gen": c.0, "session": c.1, "text": build(&c.0).0}),
         check,
     ));
+    // every pair of alphabet characters directly after an operand (complete enumeration):
+    // two-character tokens such as exponents, operators and quotes in all their spellings
+    let a = alphabet();
+    let stems: &[&str] = cfg.tier.pick(&["m", "2"][..], &["m", "2", "2 m^", "dimension Q = Length", "x = \"", "let q: Length"][..]);
+    let mut pairs: Vec<String> = vec![];
+    for stem in stems {
+        for c1 in a {
+            pairs.push(format!("{stem}{c1}"));
+            for c2 in a {
+                pairs.push(format!("{stem}{c1}{c2}"));
+            }
+        }
+    }
+    rep.absorb(run_enumerated(
+        cfg,
+        "char-pairs",
+        &pairs,
+        |t: &String| json!({"text_only": t, "session": 1}),
+        |t: &String, st: &mut Stats| check_input(t, "character-pairs", 1, st),
+    ));
+    rep.extra("alphabet_size", json!(a.len()));
     rep.extra("corpus_lines", json!(corpus().len()));
     rep.assume("nesting depth and operator runs are bounded (<= 60 levels / 1200 operators): deeper inputs overflow the native stack, which is recorded as a known finding and cannot be observed in-process");
     rep
 }
 
+/// Entry point shared by the libFuzzer target `interp` and the replay of its artifacts:
+/// byte 0 chooses the session, the rest is the (lossily decoded) input text.
+pub fn fuzz_bytes(data: &[u8], st: &mut Stats) -> CheckResult {
+    if data.len() < 2 {
+        return Ok(());
+    }
+    let text = String::from_utf8_lossy(&data[1..]).to_string();
+    check_input(&text, "libfuzzer", data[0], st)
+}
+
+fn bytes_of(case: &J) -> Option<Vec<u8>> {
+    case["fuzz_bytes"].as_array().map(|a| a.iter().map(|b| b.as_u64().unwrap_or(0) as u8).collect())
+}
+
 fn replay(_sub: &str, case: &J) -> CheckResult {
     let mut st = Stats::default();
+    if let Some(b) = bytes_of(case) {
+        return fuzz_bytes(&b, &mut st);
+    }
     if let Some(t) = case["text_only"].as_str() {
         return check_input(t, "replay", case["session"].as_u64().unwrap_or(1) as u8, &mut st);
     }
